@@ -60,6 +60,7 @@ Record st := {
   flen : N; fsize : N;                (* p.len / p.size *)
   closed : bool;                      (* committer closed: set by the flush callback on its first error *)
   pstart : key; pend : key;           (* pipelinedCommitInfo.pipelinedStart / pipelinedEnd, [] = unset *)
+  primary : key;                      (* committer.primaryKey, [] = unset: first key of the first flush that is sent *)
   (* ghost *)
   flog : list (N * buf * bool);       (* every call of the flush function: generation, buffer, sent (not closed at start) *)
   segs : list (list (key * value));   (* write ops of completed segments (between triggered flushes) *)
@@ -70,7 +71,7 @@ Record st := {
 
 Definition init : st :=
   {| mem := []; stages := []; flushing := None; inflight := false; pending := None; store := [];
-     cache := None; gen := 0; flen := 0; fsize := 0; closed := false; pstart := []; pend := [];
+     cache := None; gen := 0; flen := 0; fsize := 0; closed := false; pstart := []; pend := []; primary := [];
      flog := []; segs := []; seg := []; segstages := []; running := 0; maxrun := 0 |}.
 
 Inductive op :=
@@ -83,7 +84,8 @@ Inductive op :=
 | OComplete (o : bool)                            (* the running flush function returns (true = nil error) *)
 | OFlushWait (wo : bool)
 | OStaging | ORelease | OCleanup
-| OLen | OSize.
+| OLen | OSize
+| OStoreStep (i : N).
 
 Inductive resp :=
 | RUnit
@@ -143,20 +145,39 @@ Definition need_flush (P : params) (s : st) (memsz : N) : bool :=
 Definition upd_field_mem (s : st) (m : buf) (sg : list (key * value)) : st :=
   {| mem := m; stages := stages s; flushing := flushing s; inflight := inflight s; pending := pending s;
      store := store s; cache := cache s; gen := gen s; flen := flen s; fsize := fsize s; closed := closed s;
-     pstart := pstart s; pend := pend s; flog := flog s; segs := segs s; seg := sg;
+     pstart := pstart s; pend := pend s; primary := primary s; flog := flog s; segs := segs s; seg := sg;
      segstages := segstages s; running := running s; maxrun := maxrun s |}.
 
 Definition set_cache (s : st) (c : option cache_t) : st :=
   {| mem := mem s; stages := stages s; flushing := flushing s; inflight := inflight s; pending := pending s;
      store := store s; cache := c; gen := gen s; flen := flen s; fsize := fsize s; closed := closed s;
-     pstart := pstart s; pend := pend s; flog := flog s; segs := segs s; seg := seg s;
+     pstart := pstart s; pend := pend s; primary := primary s; flog := flog s; segs := segs s; seg := seg s;
      segstages := segstages s; running := running s; maxrun := maxrun s |}.
 
 Definition set_stages (s : st) (m : buf) (sts : list buf) (sg : list (key * value)) (sgs : list (list (key * value))) : st :=
   {| mem := m; stages := sts; flushing := flushing s; inflight := inflight s; pending := pending s;
      store := store s; cache := cache s; gen := gen s; flen := flen s; fsize := fsize s; closed := closed s;
-     pstart := pstart s; pend := pend s; flog := flog s; segs := segs s; seg := sg;
+     pstart := pstart s; pend := pend s; primary := primary s; flog := flog s; segs := segs s; seg := sg;
      segstages := sgs; running := running s; maxrun := maxrun s |}.
+
+Definition set_store (s : st) (b : buf) : st :=
+  {| mem := mem s; stages := stages s; flushing := flushing s; inflight := inflight s; pending := pending s;
+     store := b; cache := cache s; gen := gen s; flen := flen s; fsize := fsize s; closed := closed s;
+     pstart := pstart s; pend := pend s; primary := primary s; flog := flog s; segs := segs s; seg := seg s;
+     segstages := segstages s; running := running s; maxrun := maxrun s |}.
+
+(* while the flush function runs its mutations reach the store one by one, in any order (Flush RPCs of several regions,
+   retries): the i-th mutation of the buffer in flight becomes visible in the store's buffer tier *)
+Definition store_step (s : st) (i : N) : st :=
+  if inflight s then
+    match flushing s with
+    | Some (_, fb) => match nth_error fb (N.to_nat i) with
+                      | Some (k, v) => set_store s (insert k v (store s))
+                      | None => s
+                      end
+    | None => s
+    end
+  else s.
 
 (* the running flush function returns: callback epilogue (close the committer on error), onFlushing := false, errCh <- err.
    A callback that started on a closed committer returns an error whatever the environment says. *)
@@ -166,7 +187,7 @@ Definition complete (s : st) (o : bool) : st :=
     {| mem := mem s; stages := stages s; flushing := flushing s; inflight := false; pending := Some eff;
        store := (if eff then match flushing s with Some (_, fb) => overlay fb (store s) | None => store s end else store s);
        cache := cache s; gen := gen s; flen := flen s; fsize := fsize s; closed := closed s || negb eff;
-       pstart := pstart s; pend := pend s; flog := flog s; segs := segs s; seg := seg s;
+       pstart := pstart s; pend := pend s; primary := primary s; flog := flog s; segs := segs s; seg := seg s;
        segstages := segstages s; running := N.pred (running s); maxrun := maxrun s |}
   else s.
 
@@ -196,13 +217,14 @@ Definition start_flush (s : st) : st :=
      closed := closed s;
      pstart := (if sent then upd_start (pstart s) fb else pstart s);
      pend := (if sent then upd_end (pend s) fb else pend s);
+     primary := (if sent && is_nil (primary s) then first_key fb else primary s);
      flog := flog s ++ [(g, fb, sent)]; segs := segs s ++ [seg s]; seg := [];
      segstages := segstages s; running := running s + 1; maxrun := N.max (maxrun s) (running s + 1) |}.
 
 Definition clear_flushing (s : st) : st :=
   {| mem := mem s; stages := stages s; flushing := None; inflight := inflight s; pending := None;
      store := store s; cache := cache s; gen := gen s; flen := flen s; fsize := fsize s; closed := closed s;
-     pstart := pstart s; pend := pend s; flog := flog s; segs := segs s; seg := seg s;
+     pstart := pstart s; pend := pend s; primary := primary s; flog := flog s; segs := segs s; seg := seg s;
      segstages := segstages s; running := running s; maxrun := maxrun s |}.
 
 Definition flush (P : params) (s : st) (force : bool) (memsz : N) (wo : bool) : st * resp :=
@@ -249,6 +271,7 @@ Definition step (P : params) (s : st) (o : op) : st * resp :=
       end
   | OLen => (s, RNum (blen (mem s) + flen s))
   | OSize => (s, RNum (bsize (mem s) + fsize s))
+  | OStoreStep i => (store_step s i, RUnit)
   end.
 
 Definition run_from (P : params) (s : st) (ops : list op) : st :=
@@ -334,6 +357,55 @@ Definition resolved_regions (sp : list key) (ps pe : key) : list nat := run_on_r
 (* formula before a4a602e: the largest flushed key itself was the exclusive end *)
 Definition resolved_regions_prefix (sp : list key) (ps pe : key) : list nat := run_on_range sp ps pe.
 
+(* ---- the same two loops when the region layout changes while they run (splits / merges between any two steps).
+   The environment hands every LocateKey / BatchLoadRegionsFromKey the region that contains the probed key in the layout
+   of that moment; a ResolveLock that is answered (no region error) is served by exactly that region (same epoch). *)
+Definition rgn := (key * option key)%type.
+Definition rcontains (r : rgn) (k : key) : bool :=
+  lex_leb (fst r) k && match snd r with None => true | Some e => lex_ltb k e end.
+
+(* handler on task [start, rend) against the regions served one after the other; None = environment exhausted / not a
+   region containing the probe (the task did not succeed) *)
+Fixpoint handler_seq (env : list rgn) (start rend : key) : option (list rgn) :=
+  match env with
+  | [] => None
+  | r :: env' =>
+      if rcontains r start then
+        match snd r with
+        | None => Some [r]
+        | Some e => if lex_leb rend e then Some [r]
+                    else match handler_seq env' e rend with Some l => Some (r :: l) | None => None end
+        end
+      else None
+  end.
+
+(* RunOnRange: the i-th element gives the region the partition loop saw for its i-th key and the regions that served
+   the handler of the i-th task (tasks run on concurrent workers, each with its own view of the changing layout) *)
+Fixpoint run_seq_loop (envs : list (rgn * list rgn)) (k endk : key) : option (list rgn) :=
+  match envs with
+  | [] => None
+  | (p, henv) :: rest =>
+      if rcontains p k then
+        match snd p with
+        | None => handler_seq henv k endk
+        | Some e =>
+            if negb (is_nil endk) && lex_leb endk e then handler_seq henv k endk
+            else match handler_seq henv k e, run_seq_loop rest e endk with
+                 | Some a, Some b => Some (a ++ b)
+                 | _, _ => None
+                 end
+        end
+      else None
+  end.
+
+Definition run_seq (envs : list (rgn * list rgn)) (startk endk : key) : option (list rgn) :=
+  if negb (is_nil endk) && lex_leb endk startk then Some [] else run_seq_loop envs startk endk.
+
+Definition resolved_seq (envs : list (rgn * list rgn)) (ps pe : key) : option (list rgn) := run_seq envs ps (next_key pe).
+
+Definition served_covers (served : list rgn) (ks : list key) : bool :=
+  forallb (fun k => existsb (fun r => rcontains r k) served) ks.
+
 (* needCleanUpLocks / the commit path's guard *)
 Definition need_resolve (s : st) : bool := negb (is_nil (pstart s)) && negb (is_nil (pend s)).
 
@@ -349,3 +421,21 @@ Fixpoint mem_nat (n : nat) (l : list nat) : bool :=
 
 Definition covers (sp : list key) (res : list nat) (ks : list key) : bool :=
   forallb (fun k => mem_nat (locate sp k) res) ks.
+
+(* ---------------------------------------------------------------- the client is gone (crash) before the commit point *)
+(* what other clients can do with the locks the transaction left: a resolver that meets a lock on k checks the primary;
+   the primary was never committed (commit happens only after every flush was acknowledged) and its owner is gone, so
+   the first resolver decides "rolled back"; every lock is then resolved to the decided status *)
+Inductive pstat := PUndecided | PCommitted | PRolledBack.
+Record cst := { clocks : list key; cstat : pstat; ccommitted : list key; crolled : list key }.
+Definition crash_state (locks : list key) : cst :=
+  {| clocks := locks; cstat := PUndecided; ccommitted := []; crolled := [] |}.
+Definition key_in (k : key) (l : list key) : bool := existsb (bytes_eqb k) l.
+Definition cresolve (c : cst) (k : key) : cst :=
+  if key_in k (clocks c) then
+    let stat := match cstat c with PUndecided => PRolledBack | x => x end in
+    {| clocks := filter (fun x => negb (bytes_eqb k x)) (clocks c); cstat := stat;
+       ccommitted := (match stat with PCommitted => k :: ccommitted c | _ => ccommitted c end);
+       crolled := (match stat with PCommitted => crolled c | _ => k :: crolled c end) |}
+  else c.
+Definition crun (c : cst) (ks : list key) : cst := fold_left cresolve ks c.
